@@ -1595,6 +1595,7 @@ namespace Dune {
           DUNE_THROW(InvalidPosition, "No such global index in set!");
 #endif
         iter->localIndex_ = &(*index);
+        ++giter;
       }
     }
   }
